@@ -128,6 +128,20 @@ def check_tuple(acc, pendulum, kw, absolute=False):
         acc.c["nontrivial_sign"] += 1 if (y or mo) and sign(rest) != sign(total) else 0
     if d.seconds != a // US % 86400 * s:
         acc.mismatch("seconds-accessor", "value", case, d.seconds, a // US % 86400 * s)
+    if absolute:
+        # an AbsoluteDuration rebuilt by the copy protocols (whatever the sign of the arguments it was built from)
+        import pickle
+        me = (obs.td_us(d), d.years, d.months, d.weeks, d.remaining_days, d.hours, d.minutes, d.remaining_seconds, d.microseconds, d.invert)
+        for lbl, mk in (("copy", lambda: copy.copy(d)), ("deepcopy", lambda: copy.deepcopy(d)), ("pickle", lambda: pickle.loads(pickle.dumps(d))),
+                        ("reduce", lambda: (lambda r: r[0](*r[1]))(d.__reduce__()))):
+            acc.c["evaluations"] += 1
+            try:
+                r2 = mk()
+                got = (obs.td_us(r2), r2.years, r2.months, r2.weeks, r2.remaining_days, r2.hours, r2.minutes, r2.remaining_seconds, r2.microseconds, r2.invert)
+            except Exception as e:  # noqa: BLE001
+                got = f"raises {type(e).__name__}"
+            if got != me:
+                acc.mismatch("rebuild", f"absolute/{lbl}", case, got, me)
     if not absolute:
         # rebuild from own components
         rb = pendulum.Duration(years=d.years, months=d.months, weeks=d.weeks, days=d.remaining_days,
